@@ -38,6 +38,7 @@ func isGoContainer(t types.Type) bool {
 func runC18(c *Ctx, r *Rec) {
 	fa := c.flow()
 	info := c.info("collection")
+	shapeLints(c, r, c.allFuncDecls("collection"))
 	nD1, nD2, nD3 := 0, 0, 0
 	for _, fd := range c.allFuncDecls("collection") {
 		if !ast.IsExported(fd.Name.Name) || fd.Recv == nil {
